@@ -12,7 +12,7 @@ from ..provider.essential import CannotProvide, Mediator
 from ..provider.located_request import LocatedRequest, for_predicate
 from ..provider.location import GenericParamLoc
 from ..struct_trail import append_trail, render_trail_as_note
-from ..type_tools import is_named_tuple_class, is_subclass_soft
+from ..type_tools import is_named_tuple_class, is_pydantic_class, is_subclass_soft
 from .json_schema.definitions import JSONSchema
 from .json_schema.request_cls import JSONSchemaRequest
 from .json_schema.schema_model import JSONSchemaType
@@ -64,6 +64,9 @@ class IterableProvider(MorphingProvider):
             raise CannotProvide
 
         if is_named_tuple_class(norm.origin):  # a generic NamedTuple with one type variable is a model, not an iterable
+            raise CannotProvide
+
+        if is_pydantic_class(norm.origin):  # BaseModel defines __iter__, a generic model with one type variable is not an iterable
             raise CannotProvide
 
         return norm, arg
